@@ -152,6 +152,10 @@ fn replay_file(path: &str) -> i32 {
                 c13::check_full(&report, &s);
                 None
             }
+            ("C16", "pin-verify") if r["presented"].is_string() => {
+                c16::check_verify(&report, r["pin"].as_u64()? as u32, r["grid_seed"].as_u64()? as u32, &mc::util::unhex_n::<16>(r["server_salt"].as_str()?), &mc::util::unhex_n::<16>(r["client_salt"].as_str()?), &mc::util::unhex_n::<20>(r["presented"].as_str()?));
+                None
+            }
             ("C16", _) if r["pin"].is_u64() => {
                 c16::check_hash(&report, r["pin"].as_u64()? as u32, r["grid_seed"].as_u64()? as u32, &mc::util::unhex_n::<16>(r["server_salt"].as_str()?), &mc::util::unhex_n::<16>(r["client_salt"].as_str()?));
                 None
